@@ -34,6 +34,7 @@ pub enum Shape {
     Mid4a,   // ((0,(1,2)),3)
     Mid4b,   // (0,((1,2),3))
     Dyn,     // DynWeighted list of k
+    DynStep, // the same list, with a selection made on the value after every building step
 }
 
 pub fn leaves_of(s: Shape, k: usize) -> bool {
@@ -42,7 +43,7 @@ pub fn leaves_of(s: Shape, k: usize) -> bool {
         Shape::Pair => k == 2,
         Shape::L3 | Shape::L3Res | Shape::R3 => k == 3,
         Shape::L4 | Shape::L4Res | Shape::R4 | Shape::Bal4 | Shape::Mid4a | Shape::Mid4b => k == 4,
-        Shape::Dyn => (1..=5).contains(&k),
+        Shape::Dyn | Shape::DynStep => (1..=5).contains(&k),
     }
 }
 
@@ -58,7 +59,7 @@ fn node_sums(s: Shape, w: &[u32]) -> Vec<u64> {
         Shape::Bal4 => vec![w[0] + w[1], w[2] + w[3], w.iter().sum()],
         Shape::Mid4a => vec![w[1] + w[2], w[0] + w[1] + w[2], w.iter().sum()],
         Shape::Mid4b => vec![w[1] + w[2], w[1] + w[2] + w[3], w.iter().sum()],
-        Shape::Dyn => vec![w.iter().sum()],
+        Shape::Dyn | Shape::DynStep => vec![w.iter().sum()],
     }
 }
 
@@ -142,6 +143,20 @@ pub fn build_and_select(s: Shape, w: &[u32], pop: &Pop, env: &mut mcx::Env, alph
             }
             sel_obs(&d, pop, env, alpha)
         }
+        Shape::DynStep => {
+            // a selection (from a throw-away tape) on every intermediate value: building must not depend
+            // on whether the value has been used before
+            let mut tape = mcx::TapeRng::default();
+            let mut d: DynWeighted<Pop> = DynWeighted::new(Marker(0), w[0] as usize);
+            let _ = mcx::guarded(|| d.select(pop, &mut tape).is_ok());
+            for (i, x) in w.iter().enumerate().skip(1) {
+                d = d.with_selector(Marker(i), *x as usize);
+                if i + 1 < w.len() {
+                    let _ = mcx::guarded(|| d.select(pop, &mut tape).is_ok());
+                }
+            }
+            sel_obs(&d, pop, env, alpha)
+        }
     })
 }
 
@@ -154,7 +169,7 @@ pub fn cost(s: Shape, w: &[u32]) -> u128 {
             m = lcm(m, *sum as u128);
         }
     }
-    let depth = if s == Shape::Dyn { 1 } else { sums.len() as u32 };
+    let depth = if s == Shape::Dyn || s == Shape::DynStep { 1 } else { sums.len() as u32 };
     m.saturating_pow(depth.max(1))
 }
 
@@ -254,7 +269,7 @@ pub fn case_scaled(s: Shape, v: &[u32], unit: u32) -> (u64, u64, Option<(String,
     (st.leaves + extra_leaves, st.choice_points, None, law.mass.len())
 }
 
-const SHAPES: [Shape; 12] = [
+const SHAPES: [Shape; 13] = [
     Shape::Single,
     Shape::Pair,
     Shape::L3,
@@ -267,6 +282,7 @@ const SHAPES: [Shape; 12] = [
     Shape::Mid4a,
     Shape::Mid4b,
     Shape::Dyn,
+    Shape::DynStep,
 ];
 
 /// building with weights at the u32 boundary: succeeds iff the total fits
@@ -274,7 +290,7 @@ fn overflow_checks(run: &mut Run) -> u64 {
     let ws = [0u32, 1, u32::MAX - 1, u32::MAX];
     let mut n = 0;
     for s in SHAPES {
-        if s == Shape::Dyn || s == Shape::Single {
+        if s == Shape::Dyn || s == Shape::DynStep || s == Shape::Single {
             continue;
         }
         for k in 2..=4usize {
@@ -363,7 +379,7 @@ pub fn run(run: &mut Run) {
     for (unit, max_total) in units {
         for (s, w) in &cases {
             let total: u32 = w.iter().sum();
-            if *s != Shape::Dyn && total >= 2 && total <= max_total && (quick && w.len() <= 3 || !quick) {
+            if *s != Shape::Dyn && *s != Shape::DynStep && total >= 2 && total <= max_total && (quick && w.len() <= 3 || !quick) {
                 scaled.push((*s, w.clone(), unit));
                 big_cases += 1;
             }
@@ -394,7 +410,7 @@ pub fn run(run: &mut Run) {
     run.states = cases.len() as u64 + ov;
     run.traces_validated = run.evaluations;
     run.distinct_nontrivial = nontrivial;
-    run.rule = "every nesting shape of WeightedPair over 2..4 marker leaves (left chains via with_item_and_weight incl. the Result-chained form, right chains, balanced and mixed trees) and DynWeighted lists of 1..4(5) x every weight vector over 0..3 (thorough 0..5), and the same ratios scaled to totals just below 2^32; all grid word sequences explored; the member law must equal w_i/sum exactly, zero-weight members unreachable, all-zero => zero-weight error, two selections from one combination value are independent (product law); u32-boundary weight vectors must build iff the total fits. non-trivial = scenarios with more than one reachable member".into();
+    run.rule = "every nesting shape of WeightedPair over 2..4 marker leaves (left chains via with_item_and_weight incl. the Result-chained form, right chains, balanced and mixed trees) and DynWeighted lists of 1..4(5) (also with a selection made on the value after every building step) x every weight vector over 0..3 (thorough 0..5), and the same ratios scaled to totals just below 2^32; all grid word sequences explored; the member law must equal w_i/sum exactly, zero-weight members unreachable, all-zero => zero-weight error, two selections from one combination value are independent (product law); u32-boundary weight vectors must build iff the total fits. non-trivial = scenarios with more than one reachable member".into();
     run.bound("max_leaves", json!(if quick { 4 } else { 5 }));
     run.bound("max_weight", json!(wmax));
     run.bound("per_scenario_execution_budget", json!(budget.to_string()));
